@@ -1,7 +1,7 @@
 """C04 energy ledger: Metabolism.tla model-checked; real ATP_Store explored to closure and judged by TLC
 (Trace_Metabolism); TLC -simulate behaviours of the spec replayed into the real store and judged the same way."""
 import json, os, itertools, concurrent.futures as cf
-from . import base, tlc, explore
+from . import base, tlc, explore, conform
 from .tlaparse import parse_state
 
 CUR = ["atp", "gtp", "nadh"]
@@ -156,6 +156,18 @@ def explore_cfg(args):
         for name in cl:
             fails.append((signature(name, e, par), {"cfg": c, "path": t["paths"][k], "clause": name, "pre": par,
                                                    "act": e["act"], "obs": e["obs"], "post": e["post"]}))
+    if t["audit_fail"]:
+        from . import conform
+        t2 = {"witnesses": t["witnesses"]}
+        chains = []
+        for path in t["witnesses"]:
+            w = ad.make()
+            chains.append([edge_fix({"act": a, "obs": ad.apply(w, a), "post": ad.project(w)}) for a in path])
+        if chains:
+            tr = explore.chains_to_tree(chains)
+            tr["header"]["root"] = ad.project(ad.make())
+            r2, pf2, dr2 = conform.walk_tree("Trace_Metabolism", tr, constants(c, amounts, prios), "c04audit")
+            fails += conform.fails_from(pf2, tr, signature, {"cfg": c, "from": "dedup-audit witness"})
     nontrivial = sum(1 for e in t["edges"] if not e["leaf"] or e["obs"].get("ok") is False)
     sample = None
     for e in t["edges"]:
@@ -257,9 +269,8 @@ def run(tier):
         res = list(ex.map(explore_cfg, jobs))
         sres = list(ex.map(simulate_cfg, sims))
     closed = True
+    conform.settle_audit(res)
     for x in res:
-        if x["audit"]:
-            raise base.MachineryError("dedup audit failed: %s" % x["audit"])
         R.cov["traces_validated_against_impl"] += x["edges"]
         R.cov["evaluations"] += x["edges"]
         R.cov["distinct_nontrivial"] += x["nontrivial"]
